@@ -721,6 +721,12 @@ func (peer *peer) handleUpdate(e *fsmMsg) ([]*table.Path, []bgp.Family, bool) {
 					path.SetRejected(true)
 					continue
 				}
+				// RFC4456 8. If the local CLUSTER_ID is found in the CLUSTER_LIST,
+				// the advertisement received SHOULD be ignored.
+				if cid := conf.RouteReflector.State.RouteReflectorClusterId; cid.IsValid() && slices.Contains(path.GetClusterList(), cid) {
+					path.SetRejected(true)
+					continue
+				}
 			}
 			paths = append(paths, path)
 		}
